@@ -16,11 +16,13 @@ import (
 	"encoding/json"
 	"fmt"
 	"os"
+	"os/signal"
 	"runtime"
 	"runtime/pprof"
 	"sort"
 	"strings"
 	"sync"
+	"syscall"
 
 	dbm "github.com/bytom/bytom/database/leveldb"
 
@@ -32,7 +34,10 @@ import (
 
 // ---------------------------------------------------------------- alphabet
 
+// DESIGN.md's key set; the sequence search uses 5 (quick) / 6 (thorough) of them, the
+// content sweep 6 / all 7 (see NOTES.md for the cost that forces this).
 var allKeys = [][]byte{[]byte(""), []byte("a"), []byte("ab"), []byte("abc"), []byte("b"), []byte("b\x00"), []byte("\xff")}
+var sixKeys = [][]byte{[]byte(""), []byte("a"), []byte("ab"), []byte("b"), []byte("b\x00"), []byte("\xff")}
 var quickKeys = [][]byte{[]byte(""), []byte("a"), []byte("ab"), []byte("b\x00"), []byte("\xff")}
 var keys [][]byte
 var allVals = [][]byte{nil, {}, []byte("x"), []byte("y")}
@@ -165,7 +170,7 @@ func newTriple(tag string) *triple {
 }
 
 func (t *triple) open() {
-	dir, err := os.MkdirTemp("/tmp", "verif-c20-"+t.tag+"-")
+	dir, err := os.MkdirTemp(baseDir, t.tag+"-")
 	if err != nil {
 		ev.Fatal("temp dir: %v", err)
 	}
@@ -529,6 +534,36 @@ func compare(o *op, cur []int8, rm, rl, rc result) (fs []finding) {
 	return
 }
 
+// outcomeOf names the class of a read operation's reference result (vacuity histogram).
+func outcomeOf(o *op, rc result) string {
+	switch o.Kind {
+	case opGet:
+		switch {
+		case rc.Nil:
+			return "get-absent"
+		case len(rc.Val) == 0:
+			return "get-empty-value"
+		}
+		return "get-value"
+	case opIterPrefix:
+		if len(rc.Pairs) == 0 {
+			return "iterprefix-nothing"
+		}
+		return "iterprefix-yields-pairs"
+	default:
+		switch {
+		case len(rc.PreKey) > 0 || (o.S == 0 && len(rc.PreVal) > 0):
+			if len(rc.Pairs) == 0 {
+				return "iterstart-positioned-last"
+			}
+			return "iterstart-positioned-yields-pairs"
+		case len(rc.Pairs) > 0:
+			return "iterstart-unpositioned-yields-pairs"
+		}
+		return "iterstart-nothing"
+	}
+}
+
 // compareContent applies the oracle to the content after a mutating operation.
 func compareContent(o *op, mem, ldb, model string) (fs []finding) {
 	m := stripNil(mem)
@@ -589,6 +624,7 @@ func (x *succ) before(y *succ) bool {
 }
 
 type searchStats struct {
+	outcomes                                                                                map[string]int
 	states, transitions, comparisons, readOps, writeOps, nonEmptyIter, maxContent, incoming int
 	perDepth                                                                                []int
 	fixpoint                                                                                bool
@@ -669,6 +705,7 @@ func expand(s *state, rd, wr *triple, note func(s *state, oi int, fs []finding),
 		if len(rc.Pairs) > 0 {
 			ls.nonEmptyIter++
 		}
+		ls.outcomes[outcomeOf(o, rc)]++
 		note(s, oi, compare(o, s.model, rm, rl, rc))
 	}
 
@@ -693,6 +730,11 @@ func expand(s *state, rd, wr *triple, note func(s *state, oi int, fs []finding),
 		ls.writeOps++
 		m2, l2, c2 := wr.content(false)
 		fs := compareContent(o, m2, l2, c2)
+		if c2 != c {
+			ls.outcomes["write-changes-content"]++
+		} else {
+			ls.outcomes["write-leaves-content"]++
+		}
 		if len(fs) > 0 {
 			note(s, oi, fs)
 		} else if d2 := m2 + "|" + l2 + "|" + c2; d2 != s.digest { // diverged stores are reported, not expanded
@@ -714,10 +756,7 @@ func expand(s *state, rd, wr *triple, note func(s *state, oi int, fs []finding),
 }
 
 func search(run *ev.Run, maxDepth int) searchStats {
-	nw := runtime.NumCPU()
-	if nw > 8 {
-		nw = 8
-	}
+	nw := workers()
 	rds := make([]*triple, nw)
 	wrs := make([]*triple, nw)
 	for i := range rds {
@@ -731,7 +770,7 @@ func search(run *ev.Run, maxDepth int) searchStats {
 		}
 	}()
 
-	var st searchStats
+	st := searchStats{outcomes: map[string]int{}}
 	m0, l0, c0 := rds[0].content(true)
 	root := &state{digest: m0 + "|" + l0 + "|" + c0, model: append([]int8(nil), rds[0].cur...)}
 	seen := map[string]*state{root.digest: root}
@@ -766,7 +805,7 @@ func search(run *ev.Run, maxDepth int) searchStats {
 				lf := map[string]*witness{}
 				lc := map[string]int{}
 				ln := map[string]*succ{}
-				var ls searchStats
+				ls := searchStats{outcomes: map[string]int{}}
 				note := func(s *state, oi int, fs []finding) {
 					for _, f := range fs {
 						lc[f.Key]++
@@ -799,6 +838,9 @@ func search(run *ev.Run, maxDepth int) searchStats {
 				st.writeOps += ls.writeOps
 				st.nonEmptyIter += ls.nonEmptyIter
 				st.incoming += ls.incoming
+				for k, n := range ls.outcomes {
+					st.outcomes[k] += n
+				}
 				if ls.maxContent > st.maxContent {
 					st.maxContent = ls.maxContent
 				}
@@ -864,11 +906,190 @@ func search(run *ev.Run, maxDepth int) searchStats {
 	return st
 }
 
+// ---------------------------------------------------------------- content sweep (read operations only)
+
+// shortHistory builds a shortest history (batches of two Sets) that creates the content model.
+func shortHistory(model []int8) []int {
+	var ws []wr
+	for k, v := range model {
+		if v >= 0 {
+			ws = append(ws, wr{K: k, V: int(v)})
+		}
+	}
+	var h []int
+	for i := 0; i < len(ws); i += 2 {
+		want := ws[i : i+1]
+		if i+1 < len(ws) {
+			want = ws[i : i+2]
+		}
+		for oi := range ops {
+			o := &ops[oi]
+			if o.Kind != opBatch || len(o.W) != len(want) {
+				continue
+			}
+			same := true
+			for j := range want {
+				same = same && o.W[j] == want[j]
+			}
+			if same {
+				h = append(h, oi)
+				break
+			}
+		}
+	}
+	return h
+}
+
+type sweepStats struct {
+	outcomes                            map[string]int
+	contents, transitions, nonEmptyIter int
+}
+
+// sweep creates EVERY content over the current key/value alphabet (plain writes, each content
+// differing from the previous one in about one key) and executes every read operation on it.
+// It extends the read-side comparison to a larger key set than the sequence search can afford.
+func sweep(run *ev.Run) sweepStats {
+	nw := workers()
+	base := len(vals) + 1
+	total := 1
+	for range keys {
+		total *= base
+	}
+	decode := func(idx int, m []int8) {
+		for k := len(keys) - 1; k >= 0; k-- {
+			m[k] = int8(idx%base) - 1
+			idx /= base
+		}
+	}
+	var mu sync.Mutex
+	found := map[string]*witness{}
+	foundCount := map[string]int{}
+	st := sweepStats{outcomes: map[string]int{}}
+	var wg sync.WaitGroup
+	for w := 0; w < nw; w++ {
+		wg.Add(1)
+		go func(w int) {
+			defer wg.Done()
+			t := newTriple(fmt.Sprint("s", w))
+			defer t.close()
+			lf := map[string]*witness{}
+			lc := map[string]int{}
+			ls := sweepStats{outcomes: map[string]int{}}
+			lo, hi := total*w/nw, total*(w+1)/nw
+			for idx := lo; idx < hi; idx++ {
+				if idx%64 == 0 && run.OutOfTime() {
+					run.Capped("time budget reached during the content sweep")
+					break
+				}
+				if t.age >= 4*recycleEvery {
+					t.recycle()
+				}
+				t.age++
+				model := make([]int8, len(keys))
+				decode(idx, model)
+				t.moveTo(model)
+				m, l, c := t.content(true)
+				s := &state{digest: m + "|" + l + "|" + c, model: model, depth: idx}
+				note := func(oi int, fs []finding) {
+					for _, f := range fs {
+						lc[f.Key]++
+						x := &witness{s, oi, f.What}
+						if old, ok := lf[f.Key]; !ok || less(x, old) {
+							lf[f.Key] = x
+						}
+					}
+				}
+				want := string(t.buf[:0])
+				{
+					buf := t.buf[:0]
+					for k, v := range model {
+						if v >= 0 {
+							buf = appendEntry(buf, keys[k], vals[v], false)
+						}
+					}
+					want = string(buf)
+				}
+				if stripNil(m) != l || l != c || l != want {
+					note(-1, []finding{{"content-differs-after-plain-writes", fmt.Sprintf("written {%s}; MemDB {%s} GoLevelDB {%s} model {%s}", want, m, l, c)}})
+					t.recycle()
+					continue
+				}
+				ls.contents++
+				for oi := range ops {
+					o := &ops[oi]
+					if o.mutating() {
+						continue
+					}
+					rm, rl, rc := t.execAll(o)
+					ls.transitions++
+					if len(rc.Pairs) > 0 {
+						ls.nonEmptyIter++
+					}
+					ls.outcomes[outcomeOf(o, rc)]++
+					note(oi, compare(o, model, rm, rl, rc))
+				}
+			}
+			mu.Lock()
+			for k, x := range lf {
+				if old, ok := found[k]; !ok || less(x, old) {
+					found[k] = x
+				}
+			}
+			for k, n := range lc {
+				foundCount[k] += n
+			}
+			st.contents += ls.contents
+			st.transitions += ls.transitions
+			st.nonEmptyIter += ls.nonEmptyIter
+			for k, n := range ls.outcomes {
+				st.outcomes[k] += n
+			}
+			mu.Unlock()
+		}(w)
+	}
+	wg.Wait()
+	var fk []string
+	for k := range found {
+		fk = append(fk, k)
+	}
+	sort.Strings(fk)
+	for _, k := range fk {
+		run.Add("violating_transitions_in_sweep", foundCount[k])
+		x := found[k]
+		h := shortHistory(x.st.model)
+		if x.op >= 0 {
+			h = append(h, x.op)
+		}
+		confirmed := false
+		for _, f := range replayFresh(h) {
+			if f.Key == k {
+				confirmed = true
+			}
+		}
+		key := k
+		if !confirmed && x.op >= 0 {
+			key = k + "-only-on-reused-store"
+		}
+		run.Violation(key, fmt.Sprintf("history %v: %s (content sweep; reproduced on freshly created stores: %v; %d read operations of this class)", describe(h), x.what, confirmed, foundCount[k]),
+			map[string]interface{}{"history": describe(h), "op_indices": h, "what": x.what, "confirmed_on_fresh_stores": confirmed})
+	}
+	return st
+}
+
+func workers() int {
+	nw := runtime.NumCPU()
+	if nw > 8 {
+		nw = 8
+	}
+	return nw
+}
+
 // ---------------------------------------------------------------- part 2: a node on either backend
 
 type nodeReq struct {
 	Backend string `json:"backend"`
 	Blocks  int    `json:"blocks"`
+	Dir     string `json:"dir"`
 }
 
 type nodeOut struct {
@@ -898,10 +1119,13 @@ func mainChain(nd *labnet.Node) string {
 
 var net *labnet.Net
 
+// baseDir holds every on-disk store of this run; removed at the end (and on SIGINT/SIGTERM).
+var baseDir string
+
 func nodeRun(raw json.RawMessage) interface{} {
 	var r nodeReq
 	json.Unmarshal(raw, &r)
-	dir, err := os.MkdirTemp("/tmp", "verif-c20-node-")
+	dir, err := os.MkdirTemp(r.Dir, "node-")
 	if err != nil {
 		return nodeOut{StartErr: "infra: " + err.Error()}
 	}
@@ -943,7 +1167,7 @@ func nodePart(run *ev.Run) {
 	backends := []string{dbm.MemDBBackendStr, dbm.LevelDBBackendStr}
 	outs := make([]*nodeOut, 2)
 	pool := par.NewPool(2, 1)
-	reqs := []interface{}{nodeReq{backends[0], nBlocks}, nodeReq{backends[1], nBlocks}}
+	reqs := []interface{}{nodeReq{backends[0], nBlocks, baseDir}, nodeReq{backends[1], nBlocks, baseDir}}
 	pool.Do(reqs, func(r par.Result) {
 		if r.Died {
 			run.Violation("node-process-death-on-"+backends[r.Index], "the node process died on backend "+backends[r.Index]+"\n"+r.Stderr, reqs[r.Index])
@@ -1034,10 +1258,21 @@ func main() {
 	if par.IsWorker() {
 		par.Serve(nodeRun)
 	}
+	var err error
+	if baseDir, err = os.MkdirTemp("/tmp", "verif-c20-"); err != nil {
+		ev.Fatal("temp dir: %v", err)
+	}
+	sigs := make(chan os.Signal, 1)
+	signal.Notify(sigs, syscall.SIGINT, syscall.SIGTERM)
+	go func() {
+		<-sigs
+		os.RemoveAll(baseDir)
+		os.Exit(2)
+	}()
 	run := ev.Start("C20", "model_checking")
 	depth := run.Pick(4, 6)
 	if run.Thorough() {
-		keys, vals = allKeys, allVals
+		keys, vals = sixKeys, allVals
 	} else {
 		keys, vals = quickKeys, quickVals
 	}
@@ -1048,33 +1283,60 @@ func main() {
 	}
 	st := search(run, depth)
 	pprof.StopCPUProfile()
-	nodePart(run)
-
-	run.Set("states", st.states)
-	run.Set("transitions", st.transitions)
-	run.Set("traces_validated_against_impl", st.comparisons)
-	run.Set("max_depth", depth)
-	run.Set("operations_in_alphabet", len(ops))
-	run.Set("keys_in_alphabet", len(keys))
-	run.Set("read_operations", st.readOps)
-	run.Set("write_operations", st.writeOps)
-	run.Set("iterations_yielding_pairs", st.nonEmptyIter)
-	run.Set("max_entries_in_store", st.maxContent)
-	run.Set("new_states_per_depth", st.perDepth)
-	run.Set("fixpoint_reached", st.fixpoint)
-	run.Set("incoming_operations_re_executed", st.incoming)
-	run.Outcome(fmt.Sprintf("search-states-%d", st.states))
-	var ks []string
+	var ks, vs []string
 	for _, k := range keys {
 		ks = append(ks, qb(k))
 	}
-	var vs []string
 	for _, v := range vals {
 		vs = append(vs, qb(v))
 	}
-	run.Set("values_in_alphabet", len(vals))
-	run.Set("rule", "keys "+strings.Join(ks, ",")+"; values "+strings.Join(vs, ",")+"; operations Get, Set, Delete, Batch of 0..2 Set/Delete (ordered), IteratorPrefix(p), IteratorPrefixWithStart(p, s|nil, false) drained (Value, Key before the first Next, then all pairs). A state is the content read back from MemDB (with nil-ness), GoLevelDB (raw iterator) and crashkv; from every state reached in fewer than max_depth operations every operation is executed on all three stores (a state is re-created by plain Set/Delete of its content and checked to read back identically; every reported class is re-executed from freshly created stores). transitions = (state, operation) pairs executed; each is one three-way comparison.")
+	searchOps := len(ops)
+	searchAlphabet := "keys " + strings.Join(ks, ",") + "; values " + strings.Join(vs, ",")
+
+	// the sweep runs over a larger key set (read operations only)
+	if run.Thorough() {
+		keys = allKeys
+	} else {
+		keys = sixKeys
+	}
+	ops = buildOps()
+	sw := sweep(run)
+	ks = nil
+	for _, k := range keys {
+		ks = append(ks, qb(k))
+	}
+	nodePart(run)
+
+	run.Set("states", st.states)
+	run.Set("transitions", st.transitions+sw.transitions)
+	run.Set("traces_validated_against_impl", st.comparisons+sw.transitions)
+	run.Set("max_depth", depth)
+	run.Set("search_transitions", st.transitions)
+	run.Set("search_operations_in_alphabet", searchOps)
+	run.Set("search_read_operations", st.readOps)
+	run.Set("search_write_operations", st.writeOps)
+	run.Set("search_iterations_yielding_pairs", st.nonEmptyIter)
+	run.Set("search_max_entries_in_store", st.maxContent)
+	run.Set("search_new_states_per_depth", st.perDepth)
+	run.Set("search_fixpoint_reached", st.fixpoint)
+	run.Set("search_incoming_operations_re_executed", st.incoming)
+	run.Set("sweep_contents", sw.contents)
+	run.Set("sweep_read_transitions", sw.transitions)
+	run.Set("sweep_iterations_yielding_pairs", sw.nonEmptyIter)
+	classes := map[string]int{}
+	for k, n := range st.outcomes {
+		classes[k] += n
+	}
+	for k, n := range sw.outcomes {
+		classes[k] += n
+	}
+	run.Set("operation_result_classes", classes)
+	for k := range classes {
+		run.Outcome(k)
+	}
+	run.Set("rule", "SEARCH: "+searchAlphabet+"; operations Get, Set, Delete, Batch of 0..2 Set/Delete (ordered), IteratorPrefix(p), IteratorPrefixWithStart(p, s|nil, false) drained (Value, Key before the first Next, then all pairs). A state is the content read back from MemDB (with nil-ness), GoLevelDB (raw handle) and crashkv; from every state reached in fewer than max_depth operations every operation is executed on all three stores and compared (read operations right after the state's own incoming operation was executed for real; mutating operations followed by a content read-back and undone by plain writes); every reported class is re-executed from freshly created stores. search_fixpoint_reached=true means no new content appears: all histories of any length over this alphabet lead to an explored state. SWEEP: every content over keys "+strings.Join(ks, ",")+" and the same values is created by plain writes and every read operation is executed and compared. transitions = (state, operation) pairs executed, each one three-way comparison.")
 	run.Assume("verif/lib/crashkv (sorted map) is the reference for what a prefix / start-bounded iteration is; reverse iteration, Seek on a live iterator and use of an iterator after exhaustion are outside the alphabet")
+	os.RemoveAll(baseDir)
 	run.Assume("content equality is taken as state equality for GoLevelDB (its memtable / journal layering is not part of the digest); each reported class is additionally confirmed on freshly created stores")
 	run.Finish()
 }
